@@ -396,6 +396,9 @@ ASCII_CLASSES = {
     "is_ascii_alphabetic": list(range(65, 91)) + list(range(97, 123)),
     "is_ascii_alphanumeric": list(range(48, 58)) + list(range(65, 91)) + list(range(97, 123)),
     "is_ascii": range(0, 128),
+    "is_ascii_graphic": range(33, 127),
+    "is_ascii_control": list(range(0, 32)) + [127],
+    "is_ascii_punctuation": list(range(33, 48)) + list(range(58, 65)) + list(range(91, 97)) + list(range(123, 127)),
 }
 
 
@@ -1312,6 +1315,14 @@ def none_error(body):
     for m in re.finditer(r"\blet\s+Some\([^=]*=[^;{]*?\belse\s*\{\s*return\s+Err\s*\(", body):
         o = m.end() - 1
         found.append(body[o + 1:close_of(body, o)].strip())
+    for m in re.finditer(r"\bif\s+let\s+Some\(", body):
+        try:
+            arms, scrut, end = _if_let_arms(body, m.start())
+        except (KeyError, IndexError, AttributeError):
+            continue
+        mm = len(arms) == 2 and re.fullmatch(r"(?:return\s+)?(?:Err|err!)\s*\((.*)\)\s*;?", arms[1].expr, flags=re.S)
+        if mm:
+            found.append(mm.group(1).strip())
     if len(found) != 1:
         raise ValueError("expected one None -> Err conversion, found %d" % len(found))
     return found[0]
